@@ -614,3 +614,117 @@ def element_cases(rng, n, inplace_values=(False, True), flavour=None, handover=0
         h.add(("helper", x, (kind, aid), hargs), ("inst", 2), fail_at)
         out.append({"table": table, "ops": h.ops, "nd": len(heap0)})
     return out
+
+
+# ---------------------------------------------------------------------------
+# Aimed by-value cases: an element of a List of spec items addressed BY VALUE with an
+# INSTANCE (not by index) -- the receiver's own element object, the caller's original of
+# which the receiver holds a copy, a free-standing equal instance, or an instance equal to
+# no element -- together with keyword attrs / attribute transforms / a replacement / a
+# transform.  The lookup object is an argument the caller keeps: it (and, where it is the
+# receiver's own element, the receiver) stays as it is.  (The random histories and
+# `element_cases` address elements of such lists by index only.)
+def byvalue_cases(rng, n, inplace_values=(False,), flavour=None):
+    from inst_common import resolve_table
+    out = []
+    guard = 0
+    while len(out) < n and guard < 20 * n:
+        guard += 1
+        table = gen_table(rng, flavour)
+        if table[1].get("frozen"):
+            continue
+        _, heap0 = resolve_table(table)
+        h = Hist(rng, table, len(heap0))
+        # items with pairwise different contents (so that the lookup hits a known element),
+        # sometimes followed by a duplicate of the first
+        n_items = rng.choice([1, 2, 2, 3])
+        items, item_ops = [], []
+        strs = rng.sample([7, 8, 9, 0][:3 if h.keyed else 4], n_items)
+        for i in range(n_items):
+            pos, kw = None, []
+            if h.keyed and rng.random() < 0.5:
+                pos = S(strs[i])
+            else:
+                kw.append((2, S(strs[i])))
+            kw.append((1, V(i)))
+            if rng.random() < 0.3:
+                kw.append((3, rng.choice([NONE, V(4)])))
+            op = ("construct", 1, pos, kw)
+            items.append(("root", h.add(op, ("inst", 1))))
+            item_ops.append(op)
+        members = list(items)
+        if not h.keyed and rng.random() < 0.2:
+            members.append(items[0])            # the same object twice
+        coll = h.alloc(("list", members))
+        cid = rng.choice([2, 2, 2, 3] + ([4] if len(table) > 3 else []))
+        mode = rng.choice(["ctor", "ctor", "assign", "assign", "with"])
+        if mode == "ctor":          # the constructor copies: the item roots are the caller's originals
+            x = h.add(("construct", cid, None, [(53, coll), (1, V(1))]), ("inst", cid))
+        else:
+            x = h.add(("construct", cid, None, [(1, V(1))]), ("inst", cid))
+            if mode == "assign":    # assignment stores the caller's list: the item roots ARE the elements
+                h.add(("setattr", x, 53, coll), ("none",))
+            else:
+                x = h.add(("helper", x, ("with", 53), {"pos": [coll]}), ("inst", cid))
+        j = rng.randrange(n_items)
+        r = rng.random()
+        if r < 0.55:
+            lookup = items[j]                   # own element / the caller's original of element j
+        elif r < 0.85:                          # a free-standing equal instance
+            lookup = ("root", h.add(item_ops[j], ("inst", 1)))
+        else:                                   # equal to no element
+            lookup = ("root", h.add(("construct", 1, None, [(2, S(10)), (1, V(9))]), ("inst", 1)))
+        inplace = rng.choice(list(inplace_values))
+        hargs = {"inplace": inplace, "if_": rng.random() > 0.04}
+        by_index = rng.choice([None, None, None, False, False, True])
+        if by_index is not None:
+            hargs["by_index"] = by_index
+        kind = rng.choice(["update_item", "update_item", "update_item", "transform_item", "transform_item",
+                           "without_item", "with_item"])
+        bad = rng.random() < 0.3
+
+        def kws():
+            kw = [(1, V(rng.choice([5, 6])))]
+            if rng.random() < 0.5:
+                kw.append((3, V(4)))
+            if not h.keyed and rng.random() < 0.3:
+                kw.append((2, S(8)))
+            rng.shuffle(kw)
+            if bad:
+                i = rng.choice([0, len(kw) - 1])
+                a = kw[i][0]
+                kw[i] = (a, h.int_val(True) if a == 1 else V(1) if a == 2 else S(7))
+            return kw
+        if kind == "update_item":
+            r = rng.random()
+            if r < 0.7:
+                hargs["pos"] = [lookup]
+                hargs["kw"] = kws()
+            else:                               # a replacement (another instance the caller keeps)
+                new = rng.choice(items) if rng.random() < 0.5 else h.new_k1()
+                hargs["pos"] = [lookup, new]
+                if r < 0.85:
+                    hargs["kw"] = kws()
+        elif kind == "transform_item":
+            hargs["pos"] = [lookup]
+            if rng.random() < 0.75:
+                hargs["kwfn"] = h.k1_kwfn(bad, 0.15)
+                if rng.random() < 0.4:
+                    hargs["kwfn"] = [(1, ("addint", 1)), (3, rng.choice([("const", V(4)), ("const", S(7)), ("raise",)]))]
+                hargs["fn"] = ("id",)
+            else:
+                hargs["fn"] = rng.choice([("id",), ("const", V(1)), ("raise",)])
+        elif kind == "without_item":
+            hargs["pos"] = [lookup]
+        else:                                   # with_<item>(<instance>, **attrs): add (a copy of) it
+            hargs.pop("by_index", None)
+            hargs["pos"] = [lookup]
+            if rng.random() < 0.7:
+                hargs["kw"] = kws()
+            if rng.random() < 0.4:
+                hargs["index"] = V(rng.choice([0, -1, n_items]))
+                hargs["insert"] = rng.random() < 0.5
+        fail_at = rng.choice([1, 2]) if rng.random() < 0.08 else None
+        h.add(("helper", x, (kind, 53), hargs), ("inst", cid), fail_at)
+        out.append({"table": table, "ops": h.ops, "nd": len(heap0)})
+    return out
